@@ -14,7 +14,8 @@ def full_config(d, paths, cfg, out_prefix='out', csv=True, hdf5=True, log_file=T
     tmp = None
     if cfg.get('tmp_dir', True):
         tmp = d / cfg.get('tmp_name', 'scratch')
-        tmp.mkdir(exist_ok=True)
+        if not cfg.get('tmp_no_create'):
+            tmp.mkdir(exist_ok=True)
     outdir = pathlib.Path(cfg.get('out_dir') or d)
     outdir.mkdir(exist_ok=True, parents=True)
     c = dict(
@@ -41,6 +42,10 @@ def full_config(d, paths, cfg, out_prefix='out', csv=True, hdf5=True, log_file=T
             n_runners_up=int(cfg.get('n_runners_up', 2)),
             min_markers=int(cfg.get('min_markers', 3)),
             n_processors=int(cfg.get('n_processors', 2))))
+    if cfg.get('csv_override'):
+        c['csv_result_path'] = cfg['csv_override']
+    if cfg.get('hdf5_override'):
+        c['hdf5_result_path'] = cfg['hdf5_override']
     return c
 
 
